@@ -252,3 +252,55 @@ Proof.
     rewrite skipn_app, L2, Nat.sub_diag. rewrite skipn_all2 by lia. reflexivity.
   - rewrite !app_length, L1, L2, skipn_length. lia.
 Qed.
+
+Lemma nth_firstn_lt' (l : list N) : forall n i, (i < n)%nat -> nth i (firstn n l) 0 = nth i l 0.
+Proof.
+  induction l as [|x l IH]; intros n i H; [rewrite firstn_nil; reflexivity|].
+  destruct n as [|n]; [lia|]. destruct i as [|i]; cbn [firstn nth]; [reflexivity|]. apply IH. lia.
+Qed.
+
+Lemma nth_skipn' (l : list N) : forall n i, nth i (skipn n l) 0 = nth (n + i) l 0.
+Proof.
+  induction l as [|x l IH]; intros n i; [rewrite skipn_nil; destruct i, n; reflexivity|].
+  destruct n as [|n]; cbn [skipn Nat.add nth]; [reflexivity|]. apply IH.
+Qed.
+
+(* inside the region: byte off+i becomes byte off+i XOR key[i mod 4] - the key index counts from the start of the
+   slice, whatever the offset of the slice in its backing array *)
+Lemma mask_region_inside off len key arr i : (off + len <= length arr)%nat -> (i < len)%nat ->
+  nth (off + i) (mask_region off len key arr) 0
+  = N.lxor (nth (off + i) arr 0) (nth (N.to_nat (N.of_nat i mod 4)) key 0).
+Proof.
+  intros H Hi. unfold mask_region, mask_spec.
+  assert (L1 : length (firstn off arr) = off) by (rewrite firstn_length; lia).
+  assert (L0 : length (firstn len (skipn off arr)) = len) by (rewrite firstn_length, skipn_length; lia).
+  rewrite app_nth2 by lia. rewrite L1. replace (off + i - off)%nat with i by lia.
+  rewrite app_nth1 by (rewrite mask_from_length; lia).
+  rewrite mask_from_nth by lia. rewrite N.add_0_l. f_equal.
+  rewrite nth_firstn_lt' by exact Hi. rewrite nth_skipn'. reflexivity.
+Qed.
+
+(* masking distributes over concatenation, the key index carried on *)
+Lemma mask_from_app key a : forall b i,
+  mask_from i key (a ++ b) = mask_from i key a ++ mask_from (i + N.of_nat (length a)) key b.
+Proof.
+  induction a as [|x a IH]; intros b i; cbn [app mask_from length].
+  - replace (i + N.of_nat 0) with i by lia. reflexivity.
+  - rewrite IH. replace (i + N.of_nat (S (length a))) with (i + 1 + N.of_nat (length a)) by lia. reflexivity.
+Qed.
+
+(* the key index only matters modulo 4 *)
+Lemma mask_from_mod key b : forall i j, i mod 4 = j mod 4 -> mask_from i key b = mask_from j key b.
+Proof.
+  induction b as [|x b IH]; intros i j H; cbn [mask_from]; [reflexivity|].
+  rewrite H. f_equal. apply IH.
+  rewrite <- (N.add_mod_idemp_l i 1 4), <- (N.add_mod_idemp_l j 1 4) by lia. rewrite H. reflexivity.
+Qed.
+
+(* a payload split at a multiple of 4 can be masked piece by piece with the same key *)
+Lemma mask_spec_app_aligned key a b : (N.of_nat (length a)) mod 4 = 0 ->
+  mask_spec key (a ++ b) = mask_spec key a ++ mask_spec key b.
+Proof.
+  intro H. unfold mask_spec. rewrite mask_from_app. f_equal. apply mask_from_mod.
+  rewrite N.add_0_l, H. reflexivity.
+Qed.
